@@ -12,6 +12,7 @@ decision core is proved, including witnesses for the two places where the core i
 import NGF.Model.StatusPrep
 import NGF.Model.StatusJudge
 import NGF.Model.HandlerStatus
+import NGF.Model.PolicyAttach
 import NGF.Proofs.StatusPrep
 import NGF.Proofs.StatusPrepExpected
 import NGF.Generated.ConditionFacts
@@ -597,6 +598,65 @@ theorem by_value_before_error_refuted (plus : Bool) (s : HState) (ct : ChangeTyp
     · simpa [stepStoreBeforeError] using h.1
     · simp [stepStoreBeforeError, HState.failed, h.2.2]
 
+/-! ### recovery: a successful apply clears the remembered failure -/
+
+/-- `success_clears_failure`: for EVERY batch history (with or without NGINX Plus), whenever NGINX runs the last applied
+configuration (`failed = false`) the remembered result is "no error" — so the statuses of the last applying batch and every
+out-of-batch Gateway status write after it are those of a fresh handler with a nil reload result. (The Plus exception is in
+the OTHER direction only: `plus_reports_success_while_stale`.) -/
+theorem success_clears_failure (plus : Bool) (bs : List (ChangeType × Outcome))
+    (hok : (run plus init bs).failed = false) :
+    (run plus init bs).latestErr = false ∧ outOfBatchWrite (run plus init bs) = false := by
+  have h := latestErr_is_lastFail plus bs init rfl
+  have : (run plus init bs).lastFail = false := by
+    simp only [HState.failed, Bool.or_eq_false_iff] at hok
+    exact hok.2
+  exact ⟨h.trans this, h.trans this⟩
+
+/-- fail → succeed → (NoChange)* → a batch with the NGF-Service event: the out-of-batch write and, if the batch itself applies
+nothing, the Gateway status that stands afterwards use "no error" -/
+theorem success_clears_failure_for_out_of_batch_writes (plus : Bool) (s : HState) (ct ct' : ChangeType) (o o' : Outcome)
+    (hct' : ct' ≠ .noChange) (hok : applyErr plus ct' o' = false) (idle : List Outcome) (o'' : Outcome) :
+    let t := run plus (step plus (step plus s ct o).1 ct' o').1 (idle.map fun x => (ChangeType.noChange, x))
+    (stepSvc plus t true .noChange o'').2.1 = some false ∧ lastGatewayWrite plus t true .noChange o'' = some false := by
+  have hidle : ∀ (l : List Outcome) (t : HState), run plus t (l.map fun x => (ChangeType.noChange, x)) = t := by
+    intro l
+    induction l with
+    | nil => intro t; rfl
+    | cons x xs ih => intro t; simp [run, step, ih]
+  have h := (success_clears plus (step plus s ct o).1 ct' o' hct' hok).2
+  simp only [hidle]
+  exact ⟨by simp [stepSvc, outOfBatchWrite, h], by rw [(lastGatewayWrite_cases plus _ o'' .clusterState (by decide)).1, h]⟩
+
+/-- REFUTED VARIANT (seeded change C01-r4m3): writing the failure into the remembered field and never overwriting it after a
+success: after fail → succeed (any applying change types, any failure kind) the batch's own statuses and every later
+out-of-batch write still say "failed" although NGINX runs the last applied configuration -/
+theorem sticky_error_refuted (s : HState) (ct ct' : ChangeType) (o o' : Outcome)
+    (hct : ct ≠ .noChange) (hct' : ct' ≠ .noChange) (hfail : applyErr false ct o = true) (hok : applyErr false ct' o' = false) :
+    let t := (stepStickyError false (stepStickyError false s ct o).1 ct' o')
+    t.2 = some true ∧ outOfBatchWrite t.1 = true ∧
+    (step false (step false s ct o).1 ct' o').2 = some false := by
+  cases ct with
+  | noChange => exact absurd rfl hct
+  | endpointsOnly =>
+    cases ct' with
+    | noChange => exact absurd rfl hct'
+    | endpointsOnly => simp [stepStickyError, step, outOfBatchWrite, hfail, hok]
+    | clusterState => simp [stepStickyError, step, outOfBatchWrite, hfail, hok]
+  | clusterState =>
+    cases ct' with
+    | noChange => exact absurd rfl hct'
+    | endpointsOnly => simp [stepStickyError, step, outOfBatchWrite, hfail, hok]
+    | clusterState => simp [stepStickyError, step, outOfBatchWrite, hfail, hok]
+
+/-- concrete: reload fails, the next cluster-state batch reloads fine: truth "runs the last configuration", the sticky variant
+still remembers the failure, the real step does not -/
+example :
+    (run false init [(.clusterState, ⟨true, false, true⟩), (.clusterState, ⟨true, true, true⟩)]).failed = false ∧
+    (run false init [(.clusterState, ⟨true, false, true⟩), (.clusterState, ⟨true, true, true⟩)]).latestErr = false ∧
+    (stepStickyError false (stepStickyError false init .clusterState ⟨true, false, true⟩).1 .clusterState ⟨true, true, true⟩).1.latestErr = true := by
+  decide
+
 /-- concrete witness: reload fails in a cluster-state batch, then the LoadBalancer address of the NGF Service arrives alone -/
 example : (stepSvc false (step false init .clusterState ⟨true, false, true⟩).1 true .noChange ⟨true, true, true⟩).2.1 = some true ∧
     outOfBatchWrite (stepStoreBeforeError false init .clusterState ⟨true, false, true⟩).1 = false := by decide
@@ -606,6 +666,68 @@ example : (step true init .endpointsOnly ⟨true, true, false⟩).2 = some true 
 example : (step false init .clusterState ⟨false, true, true⟩).2 = some true := by decide
 
 end NGF.HandlerStatus
+
+/-! ## policy ancestors of Service-targeting policies (`NGF.Model.PolicyAttach`, mirror of `attachPolicyToService`) -/
+namespace NGF.PolicyAttach
+open NGF.StatusPrep
+
+theorem attachToService_of_contains (gw : AncRef) (v : Bool) (as : List Ancestor) (h : containsRef as gw = true) :
+    attachToService gw v as = as := by
+  cases v <;> simp [attachToService, h]
+
+theorem attachServices_of_contains (gw : AncRef) (v : Bool) (n : Nat) (as : List Ancestor) (h : containsRef as gw = true) :
+    attachServices gw v n as = as := by
+  induction n with
+  | zero => rfl
+  | succ k ih => simp [attachServices, attachToService_of_contains gw v as h, ih]
+
+/-- `policy_service_targets_one_gateway_ancestor`: a Service-targeting policy whose targetRefs name ANY number n ≥ 1 of referenced
+Services gets EXACTLY ONE ancestor entry, for the winning Gateway — Accepted by default when the Gateway is valid,
+TargetNotFound when it is invalid; and none when no targetRef names a referenced Service -/
+theorem policy_service_targets_one_gateway_ancestor (gw : AncRef) (v : Bool) (n : Nat) :
+    attachServices gw v (n + 1) [] = [⟨gw, if v then [] else [targetNotFound]⟩] ∧ attachServices gw v 0 [] = [] := by
+  refine ⟨?_, rfl⟩
+  have h1 : attachToService gw v [] = [⟨gw, if v then [] else [targetNotFound]⟩] := by
+    cases v <;> simp [attachToService, containsRef]
+  have hc : containsRef [⟨gw, if v then [] else [targetNotFound]⟩] gw = true := by simp [containsRef]
+  simp only [attachServices, h1]
+  exact attachServices_of_contains gw v n _ hc
+
+/-- … hence `preparePolicy` writes exactly one ancestor status for it (composition with `policy_one_entry_per_ancestor`'s map) -/
+theorem policy_service_targets_one_status_entry (ctlr : String) (p : Policy) (gw : AncRef) (v : Bool) (n : Nat)
+    (hp : p.ancestors = attachServices gw v (n + 1) []) :
+    (preparePolicy ctlr p).ancestors.map (·.ref) = [gw] := by
+  rw [preparePolicy, hp, (policy_service_targets_one_gateway_ancestor gw v n).1]
+  simp [prepareAncestor]
+
+/-- REFUTED VARIANT (seeded change C07-r4m1): without the `ancestorsContainsAncestorRef` test in the invalid-Gateway branch a
+policy on n referenced Services gets n identical entries -/
+theorem no_dedup_invalid_gateway_refuted (gw : AncRef) (n : Nat) :
+    (attachServicesNoDedup gw false n []).length = n ∧ ∀ a ∈ attachServicesNoDedup gw false n [], a.ref = gw := by
+  have key : ∀ (n : Nat) (as : List Ancestor), (∀ a ∈ as, a.ref = gw) →
+      (attachServicesNoDedup gw false n as).length = as.length + n ∧ ∀ a ∈ attachServicesNoDedup gw false n as, a.ref = gw := by
+    intro n
+    induction n with
+    | zero => intro as h; exact ⟨rfl, h⟩
+    | succ k ih =>
+      intro as h
+      have h' : ∀ a ∈ attachToServiceNoDedup gw false as, a.ref = gw := by
+        intro a ha
+        simp only [attachToServiceNoDedup, Bool.not_false, if_true, List.mem_append, List.mem_singleton] at ha
+        rcases ha with ha | rfl
+        · exact h a ha
+        · rfl
+      obtain ⟨h1, h2⟩ := ih _ h'
+      refine ⟨?_, h2⟩
+      simp only [attachServicesNoDedup, h1]
+      simp [attachToServiceNoDedup]; omega
+  have := key n [] (by simp)
+  simpa using this
+
+example : (attachServices ⟨"g", "Gateway", "d", "gw"⟩ false 3 []).length = 1 ∧
+    (attachServicesNoDedup ⟨"g", "Gateway", "d", "gw"⟩ false 3 []).length = 3 := by decide
+
+end NGF.PolicyAttach
 
 /-! ## the independent binding oracle of the judge: sanity theorems -/
 namespace NGF.StatusJudge
